@@ -3598,7 +3598,9 @@ func (t *Topic) original(uid types.Uid) string {
 		if pud, ok := t.perUser[uid]; ok {
 			return pud.topicName
 		}
-		panic("Invalid P2P topic")
+		// The user is not a participant, e.g. a root session acting on behalf of a third user:
+		// the request will be denied, the reply carries the full topic name.
+		return t.name
 	}
 
 	if t.cat == types.TopicCatGrp && t.isChan {
